@@ -13,6 +13,8 @@ mod toy;
 mod cmd_stark;
 mod real;
 mod cmd_real;
+mod mutate;
+mod cmd_tamper;
 mod merkle;
 mod hashes;
 mod terms;
@@ -34,6 +36,7 @@ fn main() {
         "queries" => cmd_queries::run(rest),
         "config" => cmd_config::run(rest),
         "fri" => cmd_fri::run(rest),
+        "tamper" => cmd_tamper::run_tamper(rest),
         "real-matrix" => cmd_real::run_matrix(rest),
         "stark-replay" => cmd_stark::run_replay(rest),
         "fri-random" => cmd_fri::run_random(rest),
